@@ -405,15 +405,16 @@ Fixpoint str_cmp (a b : str) : comparison :=
   end.
 
 (* records as overlap iteration sees them (plain Locatable[ByAllele] objects or
-   scheme-less MafRecords): identity tag, truth value, the two barcodes,
+   MafRecords): identity tag, truth value, the two barcodes (record.value(...):
+   None when the column is absent or a nullable typed column is empty),
    chromosome name, start, end, reference allele, alternate alleles *)
-Record orec := { rid : Z; rtruthy : bool; rtumor : str; rnormal : str;
+Record orec := { rid : Z; rtruthy : bool; rtumor : option str; rnormal : option str;
                  rchr : str; rstart : Z; rend : Z; oref : str; oalts : list str }.
 
 (* chromosome component of a key: index in the contig list when one is
    configured, else the name *)
 Inductive chromk := CRank (n : nat) | CName (s : str).
-Record ccls := { cbar : option (str * str); cchr : chromk }.
+Record ccls := { cbar : option (option str * option str); cchr : chromk }.
 
 Record cfg := { by_barcodes : bool; contigs : list str }.
 
@@ -444,13 +445,21 @@ Definition chromk_cmp (a b : chromk) : comparison :=
   | CRank _, CName _ => Lt          (* never mixed under one configuration *)
   | CName _, CRank _ => Gt
   end.
-Definition bar_cmp (a b : option (str * str)) : comparison :=
+(* SortOrderKey.compare on one barcode: None sorts after every text *)
+Definition ostr_cmp (a b : option str) : comparison :=
+  match a, b with
+  | None, None => Eq
+  | None, Some _ => Gt
+  | Some _, None => Lt
+  | Some x, Some y => str_cmp x y
+  end.
+Definition bar_cmp (a b : option (option str * option str)) : comparison :=
   match a, b with
   | None, None => Eq
   | None, Some _ => Lt              (* never mixed under one configuration *)
   | Some _, None => Gt
   | Some (t1, n1), Some (t2, n2) =>
-    match str_cmp t1 t2 with Eq => str_cmp n1 n2 | c => c end
+    match ostr_cmp t1 t2 with Eq => ostr_cmp n1 n2 | c => c end
   end.
 (* _BarcodesAndCoordinateKey.__cmp__ prefix: tumor, normal, then chromosome *)
 Definition ccls_cmp (a b : ccls) : comparison :=
@@ -462,10 +471,17 @@ Definition chromk_eqb (a b : chromk) : bool :=
   | CName x, CName y => str_eqb x y
   | _, _ => false
   end.
-Definition bar_eqb (a b : option (str * str)) : bool :=
+(* python == on one barcode (None == None) *)
+Definition ostr_eqb (a b : option str) : bool :=
   match a, b with
   | None, None => true
-  | Some (t1, n1), Some (t2, n2) => str_eqb t1 t2 && str_eqb n1 n2
+  | Some x, Some y => str_eqb x y
+  | _, _ => false
+  end.
+Definition bar_eqb (a b : option (option str * option str)) : bool :=
+  match a, b with
+  | None, None => true
+  | Some (t1, n1), Some (t2, n2) => ostr_eqb t1 t2 && ostr_eqb n1 n2
   | _, _ => false
   end.
 (* __overlaps_with_barcode: tumor ==, normal ==, chromosome == ;
